@@ -55,6 +55,7 @@ CATALOGUE = [
     ("ansi-cache-ignores-system", "C03", "style.py", "if self._ansi is None or self._ansi[0] != color_system:", "if self._ansi is None:"),
     ("control-written-to-non-terminal", "C03", "console.py", "            if not_terminal and is_control:\n                continue", "            if not_terminal and is_control and len(text) <= 3:\n                continue"),
     # ---- C19
+    ("decoder-splitlines", "C19", "ansi.py", "        lines = terminal_text.split(\"\\n\")\n        if not lines[-1]:\n            lines.pop()\n", "        lines = terminal_text.splitlines() or [\"\"]\n"),
     ("decoder-bg-bright-off-by-one", "C19", "ansi.py", "    103: \"on color(11)\",", "    103: \"on color(12)\","),
     ("fileproxy-drops-empty-lines", "C19", "file_proxy.py", "                    lines.append(\"\".join(buffer) + line)", "                    if buffer or line:\n                        lines.append(\"\".join(buffer) + line)"),
     ("fileproxy-flush-markup", "C19", "file_proxy.py", "        if output is not None:\n            self.__console.print(output, markup=False, emoji=False, highlight=False)", "        if output is not None:\n            self.__console.print(output.plain)"),
